@@ -1055,6 +1055,7 @@ var eqMsgs = map[string]string{
 	"Struct type mismatch":                              "structType",
 	"Struct field number mismatch":                      "structNum",
 	"Struct anonymous field mismatch failed":            "structAnon",
+	"Struct field visibility mismatch":                  "structVis",
 	"Slice/array kind mismatch":                         "seqKind",
 	"Slice/array capacity or length mismatch":           "seqCapLen",
 }
